@@ -7,6 +7,8 @@ turns it into regenerated source facts the model is instantiated with (Model/Con
   * the whitespace-free body text of `TcpEngine::close`, `UdpEngine::close`, `TcpEngine::connect`, `UdpEngine::connect`
     (string literals blanked) - `close` must be exactly `return enqueue(<Cmd>::close(sid));`: a close that looks the id up in the
     session table first drops the Close of a connect the I/O thread has not executed yet (seed C04-d);
+  * the whitespace-free body text of the three TcpEngine timer handlers (handleConnectTimeout / handleHandshakeTimeout /
+    handleWriteStallTimeout): each enqueues a Close tagged with its own CloseOrigin (seed C04-e dropped the tag);
   * the whitespace-free text of the `Close` arm of `TcpEngine::process()` (an application close of a session that is in the table
     always reaches `closeNow`; only TIMER-originated closes are filtered) and the statement right after `case Cmd::Connect:`;
   * in `Transport::connectSync`: the number of `return`s that hand out `engine->connect(...)` directly (the UDP bypass removed by
@@ -95,6 +97,11 @@ def gen(repo):
     proc = _body(tcp, "process", None, "TcpEngine::process")
     facts.append(("tcpProcessClose", squash(_case_arm(proc, r"Cmd::Close", "TcpEngine::process Close arm"))))
     facts.append(("tcpProcessConnect", squash(_case_arm(proc, r"Cmd::Connect", "TcpEngine::process Connect arm"))))
+    # the three safety-net timer handlers (TimerService thread): each only enqueues a Close TAGGED with its origin, so that the Close arm
+    # of process() can recognise a stale timer (`if (!s->connectPending) break;` ...). An untagged close (origin App) is executed whatever
+    # happened meanwhile: connectSync returned ok(sid) and the transport then closes that session itself (seed C04-e)
+    for fn_ in ("handleConnectTimeout", "handleHandshakeTimeout", "handleWriteStallTimeout"):
+        facts.append(("tcp." + fn_, squash(_body(tcp, fn_, "SessionId", "TcpEngine::" + fn_))))
     uproc = _body(udp, "process", None, "UdpEngine::process")
     facts.append(("udpProcessClose", squash(_case_arm(uproc, r"CmdType::Close", "UdpEngine::process Close arm"))))
     cs = blank_strings(_method_body(impl, r"\bTransport::connectSync\s*\(", "Transport::connectSync"))
